@@ -7,7 +7,10 @@ EXPLANATION = (
     "<=> 0 <= id < n, <= n only for the virtual root) and for the validators of windows, sample sets, positions, "
     "quantiles and bin maps; the functions under contract for C02, C06, C13, C10 carry the same obligation kinds "
     "and are listed in their own evidence. The Python-extension layer and the remaining C entry points are "
-    "covered only by the bounded sanitizer stand-in, labelled bounded."
+    "covered only by the bounded stand-in (labelled bounded): every Tree/TreeSequence accessor, seek, statistic and "
+    "table algorithm called with boundary identifiers, positions and windows on valid tree sequences, and every "
+    "table-collection algorithm called on collections with one corrupted cell (out-of-range ids, NaN/inf "
+    "coordinates, bad indexes), each call in a forked child so that a crash, abort or hang is observed."
 )
 C_FUNCS = [
     ("tables.c", "tsk_ibd_finder_init_samples_from_set"),
@@ -31,7 +34,8 @@ C_FUNCS = [
     # every index the table getters and comparisons form stays inside the columns (BOUNDS obligations)
 ] + [("tables.c", "tsk_%s_table_%s" % (t, f)) for t in ("edge", "site", "mutation", "migration", "individual", "population", "provenance")
      for f in ("get_row", "get_row_unsafe", "equals")] + [("tables.c", "tsk_node_table_equals")]
-UNVERIFIED = ["python/_tskitmodule.c (CPython API)", "tsk_ibd_finder_add_sample_ancestry (assumed contract)",
+BOUNDED = [{"name": "adversarial_api_calls", "module": "standins.c09_adversarial", "timeout": 1500}]
+UNVERIFIED = ["python/_tskitmodule.c (CPython API; exercised only by the bounded stand-in)", "tsk_ibd_finder_add_sample_ancestry (assumed contract)",
               "ancestor_mapper_add_ancestry (assumed contract)", "allocation-failure paths beyond NULL checks"]
 LEMMAS = ["lemmas.induction:psum_monotone"]
 ASSUMPTIONS = [
